@@ -30,6 +30,8 @@ def stdReadable (w : World) : Op → Bool
   | .repItItSIt _ _ d i j => i ≤ j && j ≤ d.length
   | .search _ (.ppc a _ k) => k ≤ a.length
   | .search _ (.pp a _) => hasNul a
+  -- a `sprintf` whose formatter fails (`vsnprintf` returns -1) has no counterpart either
+  | .sprintfW a wa _ b => hasNul a && hasNul b && wa.conv.isSome
   | _ => true
 
 /-- `std::string` is defined on the operation and returns (no exception, no undefined behaviour) -/
